@@ -40,15 +40,17 @@ try:
             if os.path.basename(root) == pkgbase and any(f.endswith(".go") for f in files):
                 pkgdir = os.path.relpath(root, wt)
                 break
+    if pkgbase == "main":
+        pkgdir = "."
     pkgdir = pkgdir or "align"
     rc, out = sh("git apply %s" % patch, cwd=wt); res["apply_rc"] = rc
     assert rc == 0, out
     rc, out = sh("go build ./...", cwd=wt); res["build_rc"] = rc
     rc, out = sh("go test -vet=off -count=1 ./... 2>&1 | tail -25", cwd=wt); res["suite_with_patch"] = "FAIL" if ("FAIL" in out) else "ok"
     open(os.path.join(wt, pkgdir, "zz_seed_demo_test.go"), "w").write(demo)
-    rc, out = sh("go test -vet=off -count=1 -run . ./%s/ 2>&1 | tail -15" % pkgdir, cwd=wt); res["demo_with_patch"] = "FAIL" if "FAIL" in out else "ok"
+    rc, out = sh("go test -vet=off -count=1 -run 'TestC|TestDemo|TestSeed|Test.*C[0-9][0-9]' ./%s/ 2>&1 | tail -15" % pkgdir, cwd=wt) if pkgdir == "." else sh("go test -vet=off -count=1 -run . ./%s/ 2>&1 | tail -15" % pkgdir, cwd=wt); res["demo_with_patch"] = "FAIL" if "FAIL" in out else "ok"
     sh("git apply -R %s" % patch, cwd=wt)
-    rc, out = sh("go test -vet=off -count=1 -run . ./%s/ 2>&1 | tail -15" % pkgdir, cwd=wt); res["demo_without_patch"] = "FAIL" if "FAIL" in out else "ok"
+    rc, out = sh("go test -vet=off -count=1 -run 'TestC|TestDemo|TestSeed|Test.*C[0-9][0-9]' ./%s/ 2>&1 | tail -15" % pkgdir, cwd=wt) if pkgdir == "." else sh("go test -vet=off -count=1 -run . ./%s/ 2>&1 | tail -15" % pkgdir, cwd=wt); res["demo_without_patch"] = "FAIL" if "FAIL" in out else "ok"
     res["demo_dir"] = pkgdir
 finally:
     sh("git -C /repo worktree remove --force %s" % wt)
